@@ -32,6 +32,7 @@ def check(run, repo, tier):
   r1_siblings(run, w)
   r2_call_sites(run, w)
   r3_row_ids(run, w)
+  run.guard(r4_map_follows_rename, run, w)
 
 
 # ------------------------------------------------------------------------------------------ R1
@@ -716,6 +717,62 @@ def r3_row_ids(run, w):
          "looked up in the same table's map", a == b and len(accessors) == 1, nontrivial=True)
 
 
+# ------------------------------------------------------------------------------------------ R4
+def r4_map_follows_rename(run, w):
+  """The temp-id map is kept per table id in some dict of the ActionSummary (today: inside the
+  TableDelta objects of self._tables). A table renamed inside the bundle must take its map along:
+  rename_table has to re-key that very dict."""
+  R4 = run.rule("C26-R4", "the per-table container of the temporary-id map is re-keyed by "
+                "ActionSummary.rename_table", floor=1)
+  up = w.fn("action_summary.ActionSummary.update_new_rows_map")
+  rn = w.fn("action_summary.ActionSummary.rename_table")
+  p = up.fi.params()[1]
+  def keyed_dicts(f, e, pname, depth=0):
+    """attributes D of self such that e is reached through self.D[<pname>] / .get / .setdefault,
+    directly or through a per-table accessor method"""
+    out = set()
+    for x in ast.walk(e):
+      key = None
+      base = None
+      if isinstance(x, ast.Subscript):
+        key, base = x.slice, x.value
+      elif isinstance(x, ast.Call) and isinstance(x.func, ast.Attribute) and \
+          x.func.attr in ("get", "setdefault", "pop") and x.args:
+        key, base = x.args[0], x.func.value
+      if key is not None and isinstance(key, ast.Name) and key.id == pname and \
+          isinstance(base, ast.Attribute) and isinstance(base.value, ast.Name) and \
+          base.value.id == "self":
+        out.add(base.attr)
+      if isinstance(x, ast.Call) and depth < 2:
+        callee = H.self_method(w, f, x)
+        args = H.norm(w, f, x).args
+        if callee is not None and len(args) == 1 and isinstance(args[0], ast.Name) and \
+            args[0].id == pname and len(callee.params()) == 2:
+          cf = w.fn_of(callee)
+          for r in ast.walk(callee.node):
+            if isinstance(r, ast.Return) and r.value is not None:
+              out |= keyed_dicts(cf, H.expand(cf, r.value, pure_only=False),
+                                 callee.params()[1], depth + 1)
+    return out
+  recv = [c.func.value for (n, c, nm) in up.calls()
+          if isinstance(c.func, ast.Attribute) and c.func.attr == "update"]
+  if len(recv) != 1:
+    raise AnalysisError("update_new_rows_map: <map>.update(...) not found")
+  dicts = keyed_dicts(up, H.expand(up, recv[0], pure_only=False), p)
+  if len(dicts) != 1:
+    raise AnalysisError("update_new_rows_map: cannot tell which dict of the summary, keyed by "
+                        "table id, holds the map (%s)" % sorted(dicts))
+  d = next(iter(dicts))
+  touched = any(isinstance(x, ast.Attribute) and x.attr == d and isinstance(x.value, ast.Name)
+                and x.value.id == "self" for x in ast.walk(rn.node))
+  if not touched and H.mentions_in_reach(
+      w, rn, lambda x: isinstance(x, ast.Attribute) and x.attr == d, depth=2):
+    touched = True
+  run.ob(R4, rn.qualname, "rename_table re-keys self.%s" % d, "temporary ids recorded for a "
+         "table keep resolving after the table is renamed in the same bundle: the dict keyed by "
+         "table id that holds them is re-keyed by rename_table", touched, fi=rn.fi)
+
+
 U = "sandbox/grist/useractions.py"
 CO = "sandbox/grist/column.py"
 EN = "sandbox/grist/engine.py"
@@ -813,6 +870,10 @@ VARIANTS = [
    "    row_ids = self._engine.out_actions.summary.translate_new_row_ids(table_id, row_ids)\n\n    # Convert passed-in values",
    "    requested_ids = row_ids\n    row_ids = self._engine.out_actions.summary.translate_new_row_ids(table_id, row_ids)\n    self._engine.invalidate_records(table_id, requested_ids)\n\n    # Convert passed-in values",
    "C26-R3"),
+  ("temp-id-map-not-renamed-with-table", AS,
+   "    t = self._forTable(table_id)\n    t.temp_row_ids.update((a, b) for (a, b) in zip(temp_row_ids, final_row_ids) if a and a < 0)",
+   "    t = self.__dict__.setdefault('_temp_maps', {})\n    self._temp_maps.setdefault(table_id, {}).update((a, b) for (a, b) in zip(temp_row_ids, final_row_ids) if a and a < 0)",
+   "C26-R4"),
   ("translate-drops-unknown-ids", AS,
    "    return [t.temp_row_ids.get(r, r) for r in row_ids]",
    "    return [t.temp_row_ids.get(r, r) for r in row_ids if r > 0 or r in t.temp_row_ids]",
